@@ -933,4 +933,132 @@ theorem body3 (k k1 k2 : ThetaSt OSt) (i c kk : Nat) (hf : k.fault = none) (hb :
       simp [isoObs, hev]
 end Body3
 
+
+theorem iso_rel (P : Params) (k2 : ThetaSt OSt) (m2 : St) (R2 : Rel P k2 m2) (i c kk : Nat) (X : Int)
+    (hmode : P.eightAbove = true ∨ ((i : Int) ≠ (P.n : Int) - 3 ∧ (i : Int) ≠ (P.n : Int) - 2)) :
+    Rel P { k2 with len_list := (c : Int), i := (i : Int) + 1, j := X,
+                    obs := isoObs k2.obs (i : Int) (c : Int) kk (decide ((i : Int) < (P.n : Int) - 2)) }
+      (isod P m2 i c kk) := by
+  have h13 : ¬ ((1 : Int) = 3) := by omega
+  have h14 : ¬ ((1 : Int) = 4) := by omega
+  have h23 : ¬ ((2 : Int) = 3) := by omega
+  have h24 : ¬ ((2 : Int) = 4) := by omega
+  constructor
+  · exact R2.kf
+  · by_cases h : (i : Int) < (P.n : Int) - 2 <;> simp [isoObs, evalQ, stepObs, h, R2.kb]
+  · rfl
+  · exact R2.ix
+  · rfl
+  · exact R2.lc
+  · exact R2.ad
+  · exact R2.lvs
+  · exact R2.lvg
+  · by_cases h : (i : Int) < (P.n : Int) - 2 <;> simp [isoObs, evalQ, stepObs, h, R2.s1]
+  · by_cases h : (i : Int) < (P.n : Int) - 2 <;> simp [isoObs, evalQ, stepObs, h, R2.s2]
+  · by_cases h : (i : Int) < (P.n : Int) - 2 <;> simp [isoObs, evalQ, stepObs, h, R2.s3]
+  · by_cases h : (i : Int) < (P.n : Int) - 2 <;> simp [isoObs, evalQ, stepObs, h, R2.s4]
+  · by_cases h : (i : Int) < (P.n : Int) - 2 <;> simp [isoObs, evalQ, stepObs, h, R2.s5]
+  · intro j
+    by_cases h : (i : Int) < (P.n : Int) - 2 <;> simp [isoObs, evalQ, stepObs, h, R2.a1, isod, h13, h14]
+  · intro j
+    by_cases h : (i : Int) < (P.n : Int) - 2 <;> simp [isoObs, evalQ, stepObs, h, R2.a2, isod, h23, h24]
+  · intro j
+    have hj0 : (0 : Int) ≤ (j : Int) := by omega
+    by_cases h : (i : Int) < (P.n : Int) - 2 <;> simp [isoObs, evalQ, stepObs, h, R2.a3, isod, hj0]
+  · intro j
+    have hj0 : (0 : Int) ≤ (j : Int) := by omega
+    by_cases h : (i : Int) < (P.n : Int) - 2 <;> simp [isoObs, evalQ, stepObs, h, R2.a4, isod, hj0]
+  · by_cases h : (i : Int) < (P.n : Int) - 2 <;> simp [isoObs, evalQ, stepObs, h, R2.tg]
+  · have := R2.lg
+    simp only [logs, Prod.mk.injEq] at this
+    have hm : (P.eightAbove = true ∨ ¬ (i : Int) = (P.n : Int) - 3 ∧ ¬ (i : Int) = (P.n : Int) - 2) := hmode
+    by_cases h : (i : Int) < (P.n : Int) - 2 <;>
+      simp [isoObs, evalQ, stepObs, h, isod, logs_append, this.1, this.2.1, this.2.2, logs, mDbls, mSteps, mKers, hm]
+
+section Iter
+variable (P : Params) (oracle : Nat → Bool) (fuel : Nat) (ea : Int)
+
+theorem adj_cases (P : Params) : (P.eightAbove = true ∧ P.adj = 0) ∨ (P.eightAbove = false ∧ P.adj = 2) := by
+  unfold Params.adj
+  cases P.eightAbove <;> simp
+
+/-- one iteration of the main loop ≙ `isoStep ∘ whileLoop ∘ headStep` -/
+theorem iter_sim (hfn : P.n ≤ fuel) (hfr : P.row.length ≤ fuel) (hea : ea = if P.eightAbove then 1 else 0)
+    (i : Nat) (hi : (i : Int) < P.m) (k : ThetaSt OSt) (m : St) (R : Rel P k m) (hki : k.i = (i : Int)) (hqs : Qs m)
+    (he : (isoStep P i (whileLoop P i (headStep P i m))).err = none) :
+    Rel P (theta_chain_comput_strategy_loop3_body obs P.row oracle fuel P.n ea k)
+      (isoStep P i (whileLoop P i (headStep P i m))) ∧
+    (theta_chain_comput_strategy_loop3_body obs P.row oracle fuel P.n ea k).i = (i : Int) + 1 ∧
+    Qs (isoStep P i (whileLoop P i (headStep P i m))) := by
+  have hm : P.m = (P.n : Int) - 1 - (P.adj : Int) := rfl
+  have h2e : (whileLoop P i (headStep P i m)).err = none := by
+    cases hq : (whileLoop P i (headStep P i m)).err with
+    | none => rfl
+    | some e => rw [isoStep_err P i _ (by simp [hq])] at he; simp [hq] at he
+  have h1e : (headStep P i m).err = none := by
+    cases hq : (headStep P i m).err with
+    | none => rfl
+    | some e => rw [whileLoop_err P i _ (by simp [hq])] at h2e; simp [hq] at h2e
+  obtain ⟨L, S, hL, hLn, hS, hhead⟩ := headStep_inv P i m R.me h1e
+  rw [hhead] at he h2e ⊢
+  -- the recomputation of len_count
+  have hk1 := loop4 P oracle fuel ea m.level L fuel 0 0 { k with len_count := 0, j := 0 } R.kf R.kb rfl
+    (by simp only []; rw [R.ll, hL]; simp) rfl rfl R.lvs (by omega) R.lvg (by omega) S (by simpa using hS)
+  have R1 : Rel P { k with j := ((0 + L : Nat) : Int), len_count := (S : Int) }
+      { m with lenCount := (S : Int), trace := m.trace ++ [.head i (L : Int) (S : Int)] } := by
+    constructor
+    · exact R.kf
+    · exact R.kb
+    · exact R.me
+    · exact R.ix
+    · exact R.ll
+    · rfl
+    · exact R.ad
+    · exact R.lvs
+    · exact R.lvg
+    · exact R.s1
+    · exact R.s2
+    · exact R.s3
+    · exact R.s4
+    · exact R.s5
+    · exact R.a1
+    · exact R.a2
+    · exact R.a3
+    · exact R.a4
+    · exact R.tg
+    · have := R.lg
+      simp only [logs, Prod.mk.injEq] at this
+      simp [logs_append, this.1, this.2.1, this.2.2, logs, mDbls, mSteps, mKers]
+  obtain ⟨R2, hk2i⟩ := while_sim P oracle fuel ea i (P.row.length - m.index) fuel _ _ R1 hki (Nat.le_refl _)
+    (by omega) h2e
+  have hqs2 := whileLoop_qs P i (P.row.length - m.index)
+    { m with lenCount := (S : Int), trace := m.trace ++ [.head i (L : Int) (S : Int)] } hqs R.me (Nat.le_refl _) h2e
+  obtain ⟨c, kk, hc, hcn, hq, hiso⟩ := isoStep_inv P i _ R2.me he
+  rw [hiso]
+  have heac : ea = 1 ∨ (ea = 0 ∧ (i : Int) < (P.n : Int) - 3) := by
+    rcases adj_cases P with ⟨h1, h2⟩ | ⟨h1, h2⟩
+    · left; rw [hea, h1]; rfl
+    · right; rw [hea, h1]; exact ⟨rfl, by omega⟩
+  have hb3 := body3 P oracle fuel ea k _ _ i c kk R.kf R.kb hk1 R.kf R.kb rfl R2.kf R2.kb hk2i (by rw [R2.ll, hc])
+    R2.s3 R2.s4 R2.s5 hcn (by have := adj_cases P; omega) (by rw [R2.a3, hq]) (by rw [R2.a4, hq])
+    (by
+      intro x hx
+      have := hqs2 x (by rw [hc]; omega)
+      rw [R2.a3, R2.a4]; exact ⟨this, this⟩)
+    heac (by omega)
+  rw [hb3]
+  refine ⟨?_, rfl, ?_⟩
+  · refine iso_rel P _ _ R2 i c kk _ ?_
+    rcases adj_cases P with ⟨h1, h2⟩ | ⟨h1, h2⟩
+    · left; exact h1
+    · right; constructor <;> omega
+  · intro j hj
+    simp only [isod] at hj ⊢
+    have := hqs2 j (by rw [hc]; omega)
+    obtain ⟨v, hv⟩ := Option.isSome_iff_exists.1 this
+    by_cases h : (decide ((i : Int) < (P.n : Int) - 2) && decide (j < c)) = true
+    · simp [h, hv]
+    · simp [h, hv]
+end Iter
+
 end SqiProofs.SkelThetaSim
